@@ -56,6 +56,9 @@ def run_isolated(names, jobs):
                 except queue.Empty:
                     break
                 d = os.path.join(VERIF, SDIR, name)
+                if not os.path.exists(os.path.join(d, "meta.json")):
+                    print(name, "does not exist; skipped", flush=True)
+                    continue
                 meta = json.load(open(os.path.join(d, "meta.json")))
                 props = [meta["property"]] + meta.get("also_check", [])
                 sh(["git", "-C", wt, "checkout", "--", "."])
